@@ -1708,7 +1708,8 @@ def do_conf_str_meson(src: str, data: T.List[str], confdata: 'ConfigurationData'
     # during substitution so we can warn the user to use the `copy:` kwarg.
     confdata_useless = not confdata.keys()
     for line in data:
-        if line.lstrip().startswith(search_token):
+        # The directive is a word: '#mesondefined' is ordinary text
+        if line.split(None, 1)[:1] == [search_token]:
             confdata_useless = False
             eol = line[len(line.rstrip('\r\n')):]
             line = do_define_meson(regex, line, confdata, subproject)
@@ -1743,7 +1744,8 @@ def do_conf_str_cmake(src: str, data: T.List[str], confdata: 'ConfigurationData'
     confdata_useless = not confdata.keys()
     for line in data:
         stripped_line = line.lstrip()
-        if len(stripped_line) >= 2 and stripped_line[0] == '#' and stripped_line[1:].lstrip().startswith(search_token):
+        # The directive is a word: '#cmakedefined' or '#cmakedefine01x' is ordinary text
+        if stripped_line.startswith('#') and stripped_line[1:].split(None, 1)[:1] in ([search_token], [search_token + '01']):
             if not stripped_line[1:].startswith(search_token):
                 from ..interpreterbase.decorators import FeatureNew
                 FeatureNew.single_use('whitespace between `#` and `cmakedefine`', '1.9.0', subproject)
